@@ -176,6 +176,23 @@ static void io_write_preset_mono(struct snapraid_io* io, block_off_t blockcur, i
 	}
 }
 
+/**
+ * Keep track of the result of a parity write.
+ */
+static void io_writer_error_add(struct snapraid_io* io, int state, block_off_t position)
+{
+	int error_index = state - IO_WRITER_ERROR_BASE;
+
+	if (error_index >= 0 && error_index < IO_WRITER_ERROR_MAX) {
+		/* counts the number of errors in the global state */
+		++io->writer_error[error_index];
+
+		/* and keep the position of the block */
+		if (io->writer_error_position_mac < IO_WRITER_ERROR_POSITION_MAX)
+			io->writer_error_position[io->writer_error_position_mac++] = position;
+	}
+}
+
 static void io_write_next_mono(struct snapraid_io* io, block_off_t blockcur, int skip, int* writer_error)
 {
 	unsigned i;
@@ -184,8 +201,10 @@ static void io_write_next_mono(struct snapraid_io* io, block_off_t blockcur, int
 	(void)skip;
 
 	/* report errors */
-	for (i = 0; i < IO_WRITER_ERROR_MAX; ++i)
+	for (i = 0; i < IO_WRITER_ERROR_MAX; ++i) {
 		writer_error[i] = io->writer_error[i];
+		io->writer_error[i] = 0;
+	}
 }
 
 static void io_refresh_mono(struct snapraid_io* io)
@@ -243,11 +262,13 @@ static void io_parity_write_mono(struct snapraid_io* io, unsigned* pos, unsigned
 	worker = &io->writer_map[i];
 	task = &worker->task_map[0];
 
-	io->writer_error[i] = 0;
-
 	/* do the work */
-	if (task->state != TASK_STATE_EMPTY)
+	if (task->state != TASK_STATE_EMPTY) {
 		worker->func(worker, task);
+
+		/* keep track of the errors */
+		io_writer_error_add(io, task->state, task->position);
+	}
 
 	/* return the position */
 	*pos = i;
@@ -265,6 +286,7 @@ static void io_start_mono(struct snapraid_io* io,
 	io->block_max = blockmax;
 	io->block_enabled = block_enabled;
 	io->block_next = blockstart;
+	io->writer_error_position_mac = 0;
 }
 
 static void io_stop_mono(struct snapraid_io* io)
@@ -342,15 +364,12 @@ static struct snapraid_task* io_reader_step(struct snapraid_worker* worker)
 static struct snapraid_task* io_writer_step(struct snapraid_worker* worker, int state)
 {
 	struct snapraid_io* io = worker->io;
-	int error_index;
 
 	/* the synchronization is protected by the io mutex */
 	thread_mutex_lock(&io->io_mutex);
 
-	/* counts the number of errors in the global state */
-	error_index = state - IO_WRITER_ERROR_BASE;
-	if (error_index >= 0 && error_index < IO_WRITER_ERROR_MAX)
-		++io->writer_error[error_index];
+	/* keep track of the errors of the just completed task */
+	io_writer_error_add(io, state, worker->task_map[worker->index].position);
 
 	while (1) {
 		unsigned next_index;
@@ -791,6 +810,7 @@ static void io_start_thread(struct snapraid_io* io,
 	/* clear writer errors */
 	for (i = 0; i < IO_WRITER_ERROR_MAX; ++i)
 		io->writer_error[i] = 0;
+	io->writer_error_position_mac = 0;
 
 	/* setup the initial read pending tasks, except the latest one, */
 	/* the latest will be initialized at the fist io_read_next() call */
@@ -862,6 +882,36 @@ static void io_stop_thread(struct snapraid_io* io)
 
 /*****************************************************************************/
 /* global */
+
+unsigned io_writer_error_position(struct snapraid_io* io, block_off_t* position_map, unsigned position_max)
+{
+	unsigned i;
+	unsigned count;
+
+#if HAVE_THREAD
+	if (io->io_max > 1)
+		thread_mutex_lock(&io->io_mutex);
+#endif
+
+	count = io->writer_error_position_mac;
+	if (count > position_max)
+		count = position_max;
+
+	for (i = 0; i < count; ++i)
+		position_map[i] = io->writer_error_position[i];
+
+	/* keep the ones not returned */
+	for (i = count; i < io->writer_error_position_mac; ++i)
+		io->writer_error_position[i - count] = io->writer_error_position[i];
+	io->writer_error_position_mac -= count;
+
+#if HAVE_THREAD
+	if (io->io_max > 1)
+		thread_mutex_unlock(&io->io_mutex);
+#endif
+
+	return count;
+}
 
 void io_init(struct snapraid_io* io, struct snapraid_state* state,
 	unsigned io_cache, unsigned buffer_max,
